@@ -1,4 +1,5 @@
 import WpModel.Drive.Loop
 import WpModel.Drive.Stacking
+import WpModel.Drive.Rounded
 
-def main : IO Unit := Wp.Drive.runDriver [Wp.Drive.Stacking.handle]
+def main : IO Unit := Wp.Drive.runDriver [Wp.Drive.Stacking.handle, Wp.Drive.Rounded.handle]
